@@ -362,6 +362,49 @@ def run(ctx, ck):
           'z = 0 is stored into %s but not into %s: the coordinates written to the BASIC input keep their tiny non-zero '
           'height and BASIC reads the end as free' % (sorted({k_ for k_, n_ in other}) or 'nothing',
                                                       sorted({'p1', 'p2'} - snapped)))
+    # unit factors 10**(6 d) of the Laplace coefficients: exact Python integers, not wrapping numpy integers
+    ck.rule('R-NUM.integer-power', 'a power of an integer literal is not taken with a numpy integer array as exponent (int64 wraps silently from 10**19)')
+    n_pow = 0
+    for g_ in m.all_funcs():
+        for x_ in walk_no_nested(g_.node):
+            if not (isinstance(x_, ast.BinOp) and isinstance(x_.op, ast.Pow)):
+                continue
+            n_pow += 1
+            b_ = x_.left
+            if not (isinstance(b_, ast.Constant) and isinstance(b_.value, int) and not isinstance(b_.value, bool) and abs(b_.value) >= 2):
+                continue
+            e_ = x_.right
+            if isinstance(e_, ast.Name):
+                # (a local bound once)
+                ds_ = [s_.value for s_ in walk_no_nested(g_.node) if isinstance(s_, ast.Assign) and len(s_.targets) == 1
+                       and isinstance(s_.targets[0], ast.Name) and s_.targets[0].id == e_.id]
+                if len(ds_) == 1:
+                    e_ = ds_[0]
+            arr_ = [c_ for c_ in ast.walk(e_) if isinstance(c_, ast.Call) and (dotted(c_.func) or '').split('.')[-1] in ('arange', 'indices')
+                    and not any(k_.arg == 'dtype' and 'float' in norm(k_.value) for k_ in c_.keywords)
+                    and not any(isinstance(a_, ast.Constant) and isinstance(a_.value, float) for a_ in c_.args)]
+            cast_ = any(isinstance(c_, ast.Call) and ((dotted(c_.func) or '').split('.')[-1] in ('float', 'float64', 'astype'))
+                        for c_ in ast.walk(e_))
+            if arr_ and not cast_:
+                # (a literal range whose largest power provably fits is fine: 2 ** np.arange(8))
+                try:
+                    stops_ = [max(a_.value for a_ in c_.args) for c_ in arr_
+                              if c_.args and all(isinstance(a_, ast.Constant) and isinstance(a_.value, int) for a_ in c_.args)]
+                    mult_ = 1
+                    for c_ in ast.walk(e_):
+                        if isinstance(c_, ast.BinOp) and isinstance(c_.op, ast.Mult):
+                            for o_ in (c_.left, c_.right):
+                                if isinstance(o_, ast.Constant) and isinstance(o_.value, int):
+                                    mult_ *= abs(o_.value)
+                    if len(stops_) == len(arr_) and abs(b_.value) ** (max(stops_) * mult_) < 2 ** 62:
+                        continue
+                except (ValueError, OverflowError):
+                    pass
+                ck.ob('R-NUM.integer-power', '%s|%s' % (g_.qual, norm(x_)[:60]), False, g_.loc(x_),
+                      '%s is computed in 64-bit numpy integers: from %d**19 on the value wraps around silently (a Laplace '
+                      'load of order >= 4 gets garbage coefficients in the BASIC input)' % (norm(x_)[:60], b_.value))
+    ck.ob('R-NUM.integer-power', 'package', True, 'mininec', '%d powers examined' % n_pow)
+    ck.floor('power expressions examined', n_pow, 10)
     ck.undecided += ['true prompt order of the BASIC program', 're-reading the answers as MININEC would']
 
 
